@@ -1011,7 +1011,14 @@ where
         let mom_plus = mom_prime.clone();
         let grad_minus = grad_prime.clone();
         let grad_plus = grad_prime.clone();
-        let alpha_prime = T::min(T::one(), (joint - joint_0).exp());
+        // A NaN energy (the step left the target's support) is a rejected proposal: it must count
+        // as acceptance probability 0, not 1 (`min(1, NaN)` is 1), or dual averaging keeps
+        // growing the step size on exactly the steps that fail.
+        let alpha_prime = if joint.is_nan() {
+            T::zero()
+        } else {
+            T::min(T::one(), (joint - joint_0).exp())
+        };
         let n_alpha_prime = 1_usize;
         (
             position_minus,
